@@ -2,6 +2,7 @@ package main
 
 import (
 	"fmt"
+	"math"
 	"time"
 
 	"go.sia.tech/core/consensus"
@@ -57,11 +58,14 @@ func preflight(regime int) *failure {
 		func() {
 			defer func() {
 				if r := recover(); r != nil {
-					err = fmt.Errorf("panic: %v", r)
+					fail = &failure{"c04-panic", fmt.Sprintf("preflight (regime %d): UpdatesSince(%s, %d) panicked: %v", regime, name[idx.ID], max, r)}
 				}
 			}()
 			rus, aus, err = cm.UpdatesSince(*idx, max)
 		}()
+		if fail != nil {
+			return
+		}
 		if err != nil {
 			kind := "c04-error-for-reached-index"
 			if lostKind {
@@ -113,6 +117,12 @@ func preflight(regime int) *failure {
 	poll(&s3, 1000, "-a3", "-a2", "+b2", "+b3", "+b4")
 	var s4 types.ChainIndex
 	poll(&s4, 1000, "+g", "+a1", "+b2", "+b3", "+b4")
+	// every chunk size >= 1: sizes no slice can have (the sizes that cannot be allocated lazily first)
+	var s5, s6 types.ChainIndex
+	s7 := parked
+	poll(&s5, math.MaxInt, "+g", "+a1", "+b2", "+b3", "+b4")
+	poll(&s6, 1<<40, "+g", "+a1", "+b2", "+b3", "+b4")
+	poll(&s7, math.MaxInt, "-a3", "-a2", "+b2", "+b3", "+b4")
 	// subscribers parked on the stale branch; its already applied blocks are submitted again
 	// (only the first above the fork point, then the whole branch): nothing may change for them
 	p1, p2, p3, p4 := parked, parked, parked, parked
